@@ -19,7 +19,10 @@ def _design(rep, tier, negs=()):
 
 
 def design_c01(rep, tier):
-    _design(rep, tier, [("Neg_Pipeline_C01.cfg", "without the re-check of curated rows an unbalanced template survives")])
+    _design(rep, tier, [("Neg_Pipeline_C01.cfg", "without the re-check of curated rows an unbalanced template survives"),
+                        ("Neg_Pipeline_incoming.cfg", "a 'solved' value arriving with the input row survives preprocessing")])
+    rep.add_model(common.design_check("Pipeline", "MC_Pipeline_incoming.cfg", workers=12, timeout=3000),
+                  role="design: rows arriving with solved = TRUE (results fed back in): preprocessing resets the flag")
     templates(rep, tier)
 
 
